@@ -17,7 +17,7 @@ class C16(Prop):
     module = 'Cbor.Props.C16'
     extra_modules = ['Cbor.Lemmas.TextContent']
     theorems = ['Props.C16.C16_never_rejects', 'Props.C16.C16_never_rejects_chunked', 'Props.C16.C16_count', 'Props.C16.C16_safe', 'Props.C16.count_le_length', 'Lemmas.Utf8.tableOk_true',
-                'Lemmas.Utf8.loop_run', 'Lemmas.Utf8.runD_count', 'Lemmas.Utf8.charRest_eq']
+                'Lemmas.Utf8.refLoop_run', 'Lemmas.Utf8.count_eq_ref', 'Lemmas.Utf8.runD_count', 'Lemmas.Utf8.charRest_eq']
     trusted_base = BASE_TRUST + [
         'C16: Spec.Utf8 is a transcription of the RFC 3629 section 4 ABNF; it is cross-checked on every run against CPython\'s strict UTF-8 decoder',
         'C16: that cbor_string_set_handle / the builder store length and bytes unchanged and store 0 for invalid text is part of the item model (C02/C03 correspondence), not of these theorems']
